@@ -389,7 +389,9 @@ class Gen:
             suffix_start = len(self.ops)
             down = [k for k in range(self.T.N) if self.T.alive[k] == 2]
             noisy = byz is not None and rng.chance(1, 2)
-            for _ in range(opts.get("rounds", 10)):
+            self.case_meta = {"byz": byz, "down": down}
+            kf = faulty_run({"_c": c, "_meta": self.case_meta, "nodes": honest})
+            for _ in range(max(opts.get("rounds", 10), round_bound(kf) + 1)):
                 if noisy and rng.chance(1, 2):
                     self.t_byz()
                 self.note("round:suffix")
@@ -489,9 +491,9 @@ def faulty_run(case):
 
 
 def round_bound(k):
-    """R(k): rounds of the synchronous suffix within which every up honest node must have committed
-    a new block, for at most k consecutive faulty leaders (derivation in the evidence of C06)"""
-    return 5 + 2 * k + 3
+    """R(k): number of synchronous rounds within which every up honest node must have committed a
+    new block, for at most k consecutive faulty leaders (derivation: evidence of C06, `rule`)."""
+    return 9 + 2 * k
 
 
 def monitors(case, out):
@@ -551,29 +553,33 @@ def monitors(case, out):
             if len(nd) > 1 and nd[1] == 0:
                 bad.append({"monitor": "C06", "failed": f"honest node {nd[0]} stopped by itself (panic, blocked or internal error) at op {i}"})
                 break
-    # C06: from the start of the suffix every up honest node commits within R rounds
+    # C06: from the start of every round of the suffix, every up honest node commits a new block
+    # within R rounds
     ss = meta["suffix_start"]
     rounds = [i for i in range(ss, len(case["ops"])) if case["ops"][i]["t"] == "round"]
     if rounds:
         kf = faulty_run(case)
         R = round_bound(kf)
-        start_h = dict(height0(out, ss))
-        need = {}
-        for r, i in enumerate(rounds):
-            for nd in out["obs"][i + 1][1]:
-                if nd[1] == 1 and nd[0] not in need and int(nd[2]) > start_h.get(nd[0], 0):
-                    need[nd[0]] = r + 1
-        last = out["obs"][rounds[-1] + 1][1]
-        ups = [nd[0] for nd in last if nd[1] == 1]
+        hs = [dict(height0(out, ss))]          # heights after 0, 1, 2, ... rounds of the suffix
+        ups = []
+        for i in rounds:
+            nds = out["obs"][i + 1][1]
+            hs.append({nd[0]: int(nd[2]) for nd in nds if len(nd) > 2})
+            ups = [nd[0] for nd in nds if nd[1] == 1]
         worst = 0
         for k in ups:
-            r = need.get(k)
-            if r is None and len(rounds) >= R:
-                bad.append({"monitor": "C06", "failed": f"node {k} committed no new block within {len(rounds)} synchronous rounds (bound R({kf}) = {R})",
-                            "rounds_executed": len(rounds)})
-            elif r is not None and r > R:
-                bad.append({"monitor": "C06", "failed": f"node {k} needed {r} synchronous rounds to commit a new block (bound R({kf}) = {R})"})
-            worst = max(worst, r or 0)
+            for s0 in range(len(rounds)):
+                r = next((r for r in range(s0 + 1, len(hs)) if hs[r].get(k, 0) > hs[s0].get(k, 0)), None)
+                if r is None:
+                    if len(hs) - 1 - s0 >= R:
+                        bad.append({"monitor": "C06", "failed": f"node {k} committed no new block in the {len(hs) - 1 - s0} synchronous rounds after round {s0} of the suffix (bound R({kf}) = {R})",
+                                    "rounds_executed": len(rounds)})
+                        break
+                else:
+                    worst = max(worst, r - s0)
+                    if r - s0 > R:
+                        bad.append({"monitor": "C06", "failed": f"node {k} needed {r - s0} synchronous rounds after round {s0} of the suffix to commit a new block (bound R({kf}) = {R})"})
+                        break
         stats = {"faulty_run": kf, "R": R, "rounds_needed": worst, "rounds": len(rounds)}
     return bad, stats
 
@@ -591,7 +597,7 @@ def height0(out, ss):
 # ---------------------------------------------------------------------------
 # digest of an observation (Model.Sim.obs_hash)
 
-P61 = 2305843009213693951
+P61 = 1 << 63
 
 
 def obs_hash(j):
